@@ -1132,6 +1132,42 @@ func ruleSIB6(w *World) []Ob {
 			}
 			return sortedKeys(set)
 		}
+		// the massive-mode stage touches the filesystem only through the methods of the simple stage it embeds: a
+		// helper of the pipeline type that stats, lists or creates on its own is a second implementation of the
+		// per-root work, and the two modes can then answer differently for the same root
+		{
+			ds := directSites(p)
+			var own []*ssa.Function
+			own = append(own, wk)
+			own = append(own, wk.AnonFuncs...)
+			seenOwn := map[*ssa.Function]bool{wk: true}
+			for i := 0; i < len(own); i++ {
+				allInstrs(own[i], func(in ssa.Instruction) {
+					if c, ok := in.(*ssa.Call); ok && c.Common().StaticCallee() != nil {
+						g := c.Common().StaticCallee()
+						if !seenOwn[g] && g.Blocks != nil && recvTypeName(g) == recvTypeName(wk) && p.InModule(g) {
+							seenOwn[g] = true
+							own = append(own, g)
+							own = append(own, g.AnonFuncs...)
+						}
+					}
+				})
+			}
+			bad := ""
+			for _, f := range own {
+				for _, site := range ds[f] {
+					if site.eff == EffFSRead || site.eff == EffFSMutate {
+						bad = site.callee + " in " + relFunc(f) + " at " + p.InstrPos(site.instr)
+					}
+				}
+			}
+			c2 := "filesystem access of " + rt + "." + stage + " goes through " + simple
+			if bad != "" {
+				l.bad(p.FuncID(wk), c2, p.Pos(wk.Pos()), "the massive-mode stage reads or changes the filesystem on its own ("+bad+") instead of through the methods of the simple stage it embeds: a second implementation of the per-root work, which can answer differently from simple mode for the same root", "reuse")
+			} else {
+				l.ok(p.FuncID(wk), c2, p.Pos(wk.Pos()), "no filesystem call in the worker or in helpers of the pipeline type", false, "reuse")
+			}
+		}
 		a, b := perRoot(wk), perRoot(sm)
 		// when the direct sets differ (one side goes through a helper of the simple type), compare what they bottom out
 		// in: the simple type's leaf methods and the effectful external calls reachable from the per-root calls
